@@ -75,6 +75,14 @@ def check(seed_dir, props=None):
     return out
 
 
+def check_many(base):
+    """`check` for every seed directory under ``base``, SEED_JOBS (default 4) seeds at a time (each seed runs its 19 checks in parallel itself)."""
+    from concurrent.futures import ThreadPoolExecutor
+    names = [n for n in sorted(os.listdir(base)) if os.path.isfile(os.path.join(base, n, "patch.diff"))]
+    with ThreadPoolExecutor(int(os.environ.get("SEED_JOBS", "4"))) as ex:
+        return dict(zip(names, ex.map(lambda n: check(os.path.join(base, n)), names)))
+
+
 if __name__ == "__main__":
     cmd = sys.argv[1]
     if cmd == "confirm":
@@ -90,12 +98,13 @@ if __name__ == "__main__":
     elif cmd == "benign":
         rows = []
         base = os.path.join(VERIF, "seeded_benign")
+        RES = check_many(base)
         for name in sorted(os.listdir(base)):
             sd = os.path.join(base, name)
             if not os.path.isfile(os.path.join(sd, "patch.diff")):
                 continue
             meta = json.load(open(os.path.join(sd, "meta.json")))
-            res = check(sd)
+            res = RES[name]
             if "error" in res:
                 rows.append({"seed": name, "property": meta.get("property"), "error": res["error"]})
                 print(name, "ERROR", res["error"])
@@ -110,12 +119,13 @@ if __name__ == "__main__":
               f"{sum(1 for r in rows if r.get('alarms') and not any(a['exit'] == 1 for a in r['alarms'].values()))} undecided only")
     elif cmd == "all":
         rows = []
+        RES = check_many(os.path.join(VERIF, "seeded"))
         for name in sorted(os.listdir(os.path.join(VERIF, "seeded"))):
             sd = os.path.join(VERIF, "seeded", name)
             if not os.path.isfile(os.path.join(sd, "patch.diff")):
                 continue
             meta = json.load(open(os.path.join(sd, "meta.json")))
-            res = check(sd)
+            res = RES[name]
             if "error" in res:
                 rows.append({"seed": name, "property": meta.get("property"), "title": meta.get("title"), "error": res["error"]})
                 print(name, "ERROR", res["error"])
